@@ -280,11 +280,22 @@ def case_grad(D, Dy, sub):
             Ah = jnp.asarray(rng.standard_normal((1, Dy, Dy)) + 2.0 * np.eye(Dy)[None])
             Wh = 0.3 * rng.standard_normal((Dk, D + 1))
             Sx = mk_prec(jnp.asarray(B)); mx = jnp.asarray(nu)
-            for lname, cls in (("exp", gt_ac.HeteroscedasticExpConditional), ("coshm1", gt_ac.HeteroscedasticCoshM1Conditional)):
+            for lname, cls in (("exp", gt_ac.HeteroscedasticExpConditional), ("coshm1", gt_ac.HeteroscedasticCoshM1Conditional),
+                               ("heaviside", gt_ac.HeteroscedasticHeavisideConditional), ("relu", gt_ac.HeteroscedasticReLUConditional)):
                 funs[f"hetero-{lname}: log-det bound wrt W"] = (
                     lambda Wm, cls=cls: jnp.sum(cls(M=jnp.asarray(M), b=jnp.asarray(b), A=Ah, W=Wm).get_lb_log_det(gt_pdf.GaussianPDF(Sigma=Sx, mu=mx))), Wh)
+                if lname in ("heaviside", "relu"):      # (each call of these classes re-traces scans: two gradients per class)
+                    funs[f"hetero-{lname}: expected log-conditional bound wrt W"] = (
+                        lambda Wm, cls=cls: cls(M=jnp.asarray(M), b=jnp.asarray(b), A=Ah, W=Wm).integrate_log_conditional_y(
+                            gt_pdf.GaussianPDF(Sigma=Sx, mu=mx), y=jnp.asarray(np.full((1, Dy), 0.3)))[0], Wh)
+                    continue
                 funs[f"hetero-{lname}: log-det bound wrt mean of p(x)"] = (
                     lambda mm, cls=cls: jnp.sum(cls(M=jnp.asarray(M), b=jnp.asarray(b), A=Ah, W=jnp.asarray(Wh)).get_lb_log_det(gt_pdf.GaussianPDF(Sigma=Sx, mu=mm))), nu)
+                yh = jnp.asarray(gen.points(rng, 1, Dy))
+                funs[f"hetero-{lname}: expected log-conditional bound wrt W"] = (
+                    lambda Wm, cls=cls: cls(M=jnp.asarray(M), b=jnp.asarray(b), A=Ah, W=Wm).integrate_log_conditional_y(gt_pdf.GaussianPDF(Sigma=Sx, mu=mx), y=yh)[0], Wh)
+                funs[f"hetero-{lname}: expected log-conditional bound wrt mean of p(x)"] = (
+                    lambda mm, cls=cls: cls(M=jnp.asarray(M), b=jnp.asarray(b), A=Ah, W=jnp.asarray(Wh)).integrate_log_conditional_y(gt_pdf.GaussianPDF(Sigma=Sx, mu=mm), y=yh)[0], nu)
                 funs[f"hetero-{lname}: matched marginal covariance wrt W"] = (
                     lambda Wm, cls=cls: jnp.sum(cls(M=jnp.asarray(M), b=jnp.asarray(b), A=Ah, W=Wm).affine_marginal_transformation(gt_pdf.GaussianPDF(Sigma=Sx, mu=mx)).Sigma), Wh)
             Dkf = 2
@@ -399,6 +410,22 @@ def case_nested(R):
             fail_if(fails, PROPERTY, "nested:grad", "cotangent of the nested measure's nu differs from central differences", np.asarray(G.measure.nu), ref, tol=1e-5, params=params)
         except Exception as e:
             fails.append(failure(PROPERTY, "nested:grad", f"raised: {type(e).__name__}: {str(e)[:200]}", params=params))
+        # one-sided intervals (an infinite limit): gradients w.r.t. precision, nu of the base measure and the finite limit
+        for side, kw in (("lower-only", dict(lower_limit=J(0.2 * np.ones((R, 1))))), ("upper-only", dict(upper_limit=J(0.7 * np.ones((R, 1)))))):
+            mk1 = lambda L, nu: gt_trunc.TruncatedGaussianMeasure(measure=gt_measure.GaussianMeasure(Lambda=L, nu=nu, ln_beta=b1.ln_beta), **kw)
+            for what, fun, theta in (("Lambda", lambda L: jnp.sum(mk1(L, b1.nu).integrate("x")), np.asarray(b1.Lambda)),
+                                     ("nu", lambda nu: jnp.sum(mk1(b1.Lambda, nu).integral()), np.asarray(b1.nu)),
+                                     ("Lambda/x**2", lambda L: jnp.sum(mk1(L, b1.nu).integrate("x**2")), np.asarray(b1.Lambda))):
+                try:
+                    g = np.asarray(jax.grad(fun)(J(theta)))
+                    gj = np.asarray(jax.jit(jax.grad(fun))(J(theta)))
+                except Exception as e:
+                    fails.append(failure(PROPERTY, f"trunc-grad:{side}:{what}", f"raised: {type(e).__name__}: {str(e)[:200]}", params=params)); continue
+                if not (np.all(np.isfinite(g)) and np.all(np.isfinite(gj))):
+                    fails.append(failure(PROPERTY, f"trunc-grad:{side}:{what}", "gradient of a one-sided truncated integral is not finite", got=g.tolist(), params=params)); continue
+                ref = fd_grad(fun, theta)
+                fail_if(fails, PROPERTY, f"trunc-grad:{side}:{what}", "reverse-mode gradient differs from central differences", g, ref, tol=1e-5, params=params)
+                fail_if(fails, PROPERTY, f"trunc-grad:{side}:{what}", "jit(grad) differs from grad", gj, g, params=params)
         return fails
     return Case(label, fn)
 
